@@ -2,7 +2,7 @@
 import re
 
 import proto
-from common import Failure, Outcome, Broken
+from common import capped, Failure, Outcome, Broken
 from gen import pick, gen_str, mutate_str
 from genrules import gen_policy, gen_inquiry
 import polcase
@@ -21,7 +21,7 @@ ASSUMPTIONS = ['MySQL / PostgreSQL / Oracle regex and LIKE-escape semantics and 
                'in-process fake; results for those branches hold for the emulation only',
                'SQL LIKE is modelled by its lower bound (case-sensitive substring); its extra candidates (ASCII case '
                'folding, % and _ in the value) never matter by superset_ok']
-BACKENDS = ['sqlite', 'sqlite-regex', 'redis-json', 'redis-pickle', 'mongo', 'mongo40', 'enfold:sqlite', 'enfold:mongo',
+BACKENDS = ['sqlite', 'sqlite-regex', 'redis-json', 'redis-pickle', 'mongo', 'mongo40', 'mongo419', 'enfold:sqlite', 'enfold:mongo',
             'observable:sqlite', 'observable:memory', 'enfold-late:sqlite', 'enfold-late-pop:memory']
 
 
@@ -39,8 +39,8 @@ def load(kind, objs):
             ec.get(objs[0].uid)
             ec.get(objs[-1].uid)
         ec.get('no-such-uid')
-        list(ec.get_all(2, 0))
-        list(ec.retrieve_all())
+        capped(ec.get_all(2, 0))
+        capped(ec.retrieve_all())
         if kind.startswith('enfold-late-pop'):
             ec.populate()
         return ec
